@@ -4,7 +4,7 @@
    suite W-json / R-json (the implementation's file is parsed and compared with [json_write]). *)
 From Coq Require Import List Bool String ZArith.
 From FM Require Import Base.Result Model.FM Model.PFM Format.Json Proofs.C16Facts Proofs.JsonFacts Proofs.C09Facts Proofs.JsonVariant Proofs.JsonExtra
-     Model.PyRt Model.Loc Gen.Src_json Proofs.SrcJsonFacts Proofs.SrcTieC05.
+     Model.PyRt Model.Loc Gen.Src_json Proofs.SrcJsonFacts Proofs.SrcTieC05 Gen.Src_jsonr Proofs.SrcJsonReaderFacts.
 Import ListNotations.
 Local Open Scope list_scope.
 
@@ -48,6 +48,18 @@ Theorem C05_source_roundtrip : forall m fuel, (fuel_fm m <= fuel)%nat -> json_ok
   exists d, py_to_json fuel m = Ok d /\ json_read d = Ok (annotate_fm m).
 Proof. exact source_json_roundtrip. Qed.
 Print Assumptions C05_source_roundtrip.
+
+(* the constraint part of the READER about the translated source (json_reader.py: parse_ast_constraint,
+   parse_constraints; Gen/Src_jsonr.v): the same node or the same exception as the model, for every loaded value *)
+Theorem C05_source_reader_constraint : forall v fuel fuel', (aval_depth v <= fuel)%nat -> (aval_depth v <= fuel')%nat ->
+  py_parse_ast_constraint fuel v = json_parse_ctc fuel' v.
+Proof. exact src_parse_ast_constraint. Qed.
+Print Assumptions C05_source_reader_constraint.
+
+Theorem C05_source_reader_constraints : forall l fuel cs, (list_max (map aval_depth l) <= fuel)%nat ->
+  (py_parse_constraints fuel l = Ok cs <-> mapM model_ctc_of l = Ok cs).
+Proof. exact src_parse_constraints_ok. Qed.
+Print Assumptions C05_source_reader_constraints.
 
 Theorem C05_roundtrip_needs_nonempty : forall m d,
   json_write m = Ok d -> json_read d = Ok (annotate_fm m) -> rels_nonempty (root m).
